@@ -115,6 +115,23 @@ func CheckRead(c ReadCase) (fs []core.Finding, outcome string) {
 	}
 	plan := c.Plan
 	st.RP = &plan
+	if plan.Nested > 0 {
+		// another load through the same LinkSystem (same hash function) overlaps with this one: it reads
+		// the intact block of this very link and a second block, raw and decoded
+		ov := ref.List(ref.Str("another block"), c.V)
+		if c.Proto.Codec == c05.Raw {
+			ov = ref.Bytes("another block")
+		}
+		other := prepare(ov, c.Proto)
+		st.M[other.link.Binary()] = other.block
+		st.NestedFn = func() {
+			core.Guard(func() {
+				ls.LoadRaw(linking.LinkContext{}, pr.link)
+				ls.Load(linking.LinkContext{}, other.link, basicnode.Prototype.Any)
+				ls.LoadRaw(linking.LinkContext{}, pr.link)
+			})
+		}
+	}
 	served := pr.block
 	if plan.Serve != nil {
 		served = plan.Serve
@@ -390,6 +407,21 @@ func Main(r *core.Run) {
 						r.Outcome(fn + "/after-clean-load/" + outcome)
 						r.NontrivialN(1)
 						r.Report("read", cw, fs)
+					}
+				}
+				if plan.Serve != nil && plan.Nested == 0 {
+					// the same fault while another load through the same LinkSystem overlaps with it, before
+					// each of the first three read calls (the last of them is the one that reports the end)
+					for k := 1; k <= 3; k++ {
+						cn := c
+						cn.Plan.Nested = k
+						fs, outcome := CheckRead(cn)
+						lc.Transitions += 4
+						lc.Evals++
+						lc.Traces++
+						r.Outcome(fn + "/overlapping-load/" + outcome)
+						r.NontrivialN(1)
+						r.Report("read", cn, fs)
 					}
 				}
 				if pi%7 == 0 && plan.Serve != nil {
